@@ -153,7 +153,8 @@ func main() {
 	}
 	runTables()     // symbol attribute table (black-box) and, if built white-box, stored tables
 	runGenerators() // generator polynomials through unit vectors
-	runECC()        // parity + interleaving, vector families
+	runECC()
+	runECCSpecial() // parity + interleaving, vector families
 	if !chk.Quick() {
 		runECCValues()
 	}
@@ -176,6 +177,10 @@ func replay(c rcase) {
 	case "ecc":
 		if s, ok := symBySize(c.Rows, c.Cols); ok {
 			eccCase(l, s, c.Index)
+		}
+	case "eccz":
+		if s, ok := symBySize(c.Rows, c.Cols); ok {
+			eccSpecialCase(l, s, c.Index)
 		}
 	case "eccv":
 		if s, ok := symBySize(c.Rows, c.Cols); ok {
